@@ -9,7 +9,7 @@ EXTENDS Rtp, TLC, Json, CSV, IOUtils
 CONSTANTS MaxPkts, MaxPay
 
 Desc(dt, mark, m, k, n) ==      \* k selects distinguishable field values; n payload bytes
-    [a5 |-> 129, a6 |-> m * 128 + (IF k = 0 THEN 98 ELSE 6), seq |-> 4660 + k, sim |-> <<0, 1, 56, 0, 16 + k, 1>>,
+    [a5 |-> 129, a6 |-> m * 128 + (IF k = 0 THEN 98 ELSE 6), seq |-> 4660 + k, sim |-> <<16 * k + 2 * k, 1, 56, 0, 16, 1>>,   \* later packets differ from the first in the FIRST BCD byte only
      channel |-> 1 + k, dt |-> dt, mark |-> mark,
      ts |-> <<1 + k, 2, 3, 4, 5, 6, 7, 200>>, ival1 |-> 770 + k, ival2 |-> 1284,
      payload |-> [i \in 1..n |-> (IF i = 1 THEN 48 ELSE 160 + i + k)]]      \* payload may begin like the marker
